@@ -19,6 +19,7 @@ import (
 	"github.com/ipfs/go-graphsync/donotsendfirstblocks"
 	"github.com/ipfs/go-graphsync/ipldutil"
 	gsmsg "github.com/ipfs/go-graphsync/message"
+	"github.com/ipfs/go-graphsync/panics"
 	"github.com/ipfs/go-graphsync/requestmanager/hooks"
 	"github.com/ipfs/go-graphsync/requestmanager/types"
 )
@@ -113,9 +114,18 @@ type RequestTask struct {
 	InProgressErr        chan error
 	Empty                bool
 	ReconciledLoader     ReconciledLoader
+	PanicCallback        panics.CallBackFn
 }
 
-func (e *Executor) traverse(rt RequestTask) error {
+func (e *Executor) traverse(rt RequestTask) (err error) {
+	// the storage read and write functions of the link system (and the block hooks) are called on this
+	// worker goroutine rather than in the traverser's: a panic in them fails this request, like a panic
+	// during the traversal itself, instead of taking the process down
+	defer func() {
+		if rerr := panics.MakeHandler(rt.PanicCallback)(recover()); rerr != nil {
+			err = rerr
+		}
+	}()
 	requestSent := false
 	// for initial request, start remote right away
 	for {
